@@ -54,15 +54,21 @@ type Report struct {
 	Files      []string `json:"files"`
 }
 
+type pendingChild struct {
+	fl  *ast.FuncLit
+	tok string
+}
+
 type rw struct {
-	fset  *token.FileSet
-	info  *types.Info
-	pkg   *packages.Package
-	rep   *Report
-	file  string
-	fn    string
-	owned map[types.Object]bool // receiver and parameters of the enclosing declared function
-	tmpN  int
+	pending []pendingChild
+	fset    *token.FileSet
+	info    *types.Info
+	pkg     *packages.Package
+	rep     *Report
+	file    string
+	fn      string
+	owned   map[types.Object]bool // receiver and parameters of the enclosing declared function
+	tmpN    int
 }
 
 // Instrument rewrites the module rooted at dir (a scratch copy of /repo) in
@@ -228,6 +234,12 @@ func (r *rw) rewriteFile(f *ast.File, path string) error {
 		r.owned = bd.owned
 		bd.b.List = r.list(bd.b.List, true, bd.b.Lbrace)
 	}
+	for _, pc := range r.pending {
+		enter := &ast.ExprStmt{X: simCall("ChildEnter", ast.NewIdent(pc.tok))}
+		exit := &ast.DeferStmt{Call: simCall("ChildExit", ast.NewIdent(pc.tok))}
+		pc.fl.Body.List = append([]ast.Stmt{enter, exit}, pc.fl.Body.List...)
+	}
+	r.pending = nil
 	astutil.AddNamedImport(r.fset, f, "verifsim", SimImport)
 
 	var out bytes.Buffer
@@ -323,8 +335,6 @@ func (r *rw) exprSeams(b *ast.BlockStmt) {
 		switch n := c.Node().(type) {
 		case *ast.FuncLit:
 			return false // nested literals are bodies of their own
-		case *ast.GoStmt:
-			r.rep.Unmodelled = append(r.rep.Unmodelled, "go statement at "+r.where(n.Pos()))
 		case *ast.SendStmt:
 			r.rep.Unmodelled = append(r.rep.Unmodelled, "channel send at "+r.where(n.Pos()))
 		case *ast.SelectStmt:
@@ -407,7 +417,10 @@ func (r *rw) exprSeams(b *ast.BlockStmt) {
 				}
 				r.rep.Modelled = append(r.rep.Modelled, "Once.Do at "+r.where(n.Pos()))
 				c.Replace(simCall("OnceDo", recv, n.Args[0]))
-			case fn.Pkg().Path() == "sync" && (isNamed(recvT, "sync", "WaitGroup") || isNamed(recvT, "sync", "Cond")) && fn.Name() == "Wait":
+			case fn.Pkg().Path() == "sync" && isNamed(recvT, "sync", "WaitGroup") && fn.Name() == "Wait" && len(n.Args) == 0:
+				r.rep.Modelled = append(r.rep.Modelled, "WaitGroup.Wait at "+r.where(n.Pos()))
+				c.Replace(simCall("WaitGroupWait", &ast.SelectorExpr{X: sel.X, Sel: ast.NewIdent("Wait")}))
+			case fn.Pkg().Path() == "sync" && isNamed(recvT, "sync", "Cond") && fn.Name() == "Wait":
 				r.rep.Unmodelled = append(r.rep.Unmodelled, "sync "+fn.Name()+" at "+r.where(n.Pos()))
 			}
 		}
@@ -435,6 +448,21 @@ func (r *rw) list(l []ast.Stmt, entry bool, at token.Pos) []ast.Stmt {
 			r.rep.NSync++
 		}
 		pre := r.stmt(s)
+		if g, ok := s.(*ast.GoStmt); ok {
+			var repl ast.Stmt
+			pre, repl = r.goStmt(g)
+			if repl != nil {
+				s = repl
+			}
+		} else if ls, ok := s.(*ast.LabeledStmt); ok {
+			if g, ok := ls.Stmt.(*ast.GoStmt); ok {
+				var repl ast.Stmt
+				pre, repl = r.goStmt(g)
+				if repl != nil {
+					ls.Stmt = repl
+				}
+			}
+		}
 		out = append(out, r.yieldStmt(site))
 		out = append(out, pre...)
 		out = append(out, s)
@@ -446,6 +474,31 @@ func (r *rw) blk(b *ast.BlockStmt) {
 	if b != nil {
 		b.List = r.list(b.List, false, b.Lbrace)
 	}
+}
+
+// goStmt makes a goroutine started by the library a task of the simulator.
+// `go func(...) {...}(args)`: the parent reserves the task (ChildSpawn) right
+// before the go statement and the literal's body gets ChildEnter / deferred
+// ChildExit as its very first statements (inserted after all yields have been
+// placed, see pending). `go f(args)` with f free of results and at most three
+// plain arguments becomes verifsim.GoN(f, args...), which evaluates the
+// arguments in the parent exactly as the go statement does.
+func (r *rw) goStmt(g *ast.GoStmt) (pre []ast.Stmt, repl ast.Stmt) {
+	if fl, ok := g.Call.Fun.(*ast.FuncLit); ok {
+		r.tmpN++
+		tok := ast.NewIdent(fmt.Sprintf("verifGo%d", r.tmpN))
+		pre = []ast.Stmt{&ast.AssignStmt{Lhs: []ast.Expr{tok}, Tok: token.DEFINE, Rhs: []ast.Expr{simCall("ChildSpawn")}}}
+		r.pending = append(r.pending, pendingChild{fl, tok.Name})
+		r.rep.Modelled = append(r.rep.Modelled, "go func literal at "+r.where(g.Pos()))
+		return pre, nil
+	}
+	if sig, ok := r.info.TypeOf(g.Call.Fun).(*types.Signature); ok && sig.Results().Len() == 0 && !sig.Variadic() && len(g.Call.Args) <= 3 && !g.Call.Ellipsis.IsValid() {
+		args := append([]ast.Expr{g.Call.Fun}, g.Call.Args...)
+		r.rep.Modelled = append(r.rep.Modelled, "go call at "+r.where(g.Pos()))
+		return nil, &ast.ExprStmt{X: simCall(fmt.Sprintf("Go%d", len(g.Call.Args)), args...)}
+	}
+	r.rep.Unmodelled = append(r.rep.Unmodelled, "go statement at "+r.where(g.Pos()))
+	return nil, nil
 }
 
 // stmt descends into the statement structure (never into expressions) and
@@ -573,7 +626,7 @@ func (r *rw) callsSync(s ast.Stmt) bool {
 			return false
 		case *ast.CallExpr:
 			if sel, ok := x.Fun.(*ast.SelectorExpr); ok {
-				if id, ok := sel.X.(*ast.Ident); ok && id.Name == "verifsim" && (sel.Sel.Name == "Lock" || sel.Sel.Name == "OnceDo") {
+				if id, ok := sel.X.(*ast.Ident); ok && id.Name == "verifsim" && (sel.Sel.Name == "Lock" || sel.Sel.Name == "OnceDo" || sel.Sel.Name == "WaitGroupWait") {
 					found = true
 					return false
 				}
